@@ -27,11 +27,13 @@ pub enum Kind {
     Unsub,
     Ping,
     Auth,
+    /// QoS 0 publish: a request whose handler produces no response (it must not hold up or swallow the responses around it)
+    Pub0,
 }
 
 impl Kind {
     fn is_publish(self) -> bool {
-        matches!(self, Kind::Pub1 | Kind::Pub2 | Kind::Pub1Neg | Kind::Pub1ErrAck)
+        matches!(self, Kind::Pub1 | Kind::Pub2 | Kind::Pub1Neg | Kind::Pub1ErrAck | Kind::Pub0)
     }
 }
 
@@ -100,6 +102,7 @@ pub async fn run_case(c: Case) -> Result<CaseInfo, Failure> {
     // expected responses and gate identities in arrival order
     let mut expected: Vec<(u8, u16)> = Vec::new();
     let mut gate: Vec<(u8, u32)> = Vec::new();
+    let mut has_resp: Vec<bool> = Vec::new();
     let mut frames: Vec<Vec<u8>> = Vec::new();
     let (mut np, mut nc, mut nrel) = (0u32, 0u32, 0u16);
     for (i, k) in c.kinds.iter().enumerate() {
@@ -121,13 +124,17 @@ pub async fn run_case(c: Case) -> Result<CaseInfo, Failure> {
             Kind::Unsub => (P5::Unsubscribe(s5::Unsub5 { pid, filters: vec!["a/+".into()], ..Default::default() }), (11, pid), (G_CTL, nc)),
             Kind::Ping => (P5::PingReq, (13, 0), (G_CTL, nc)),
             Kind::Auth => (P5::Auth(s5::Auth5 { reason: 0x19, auth_method: Some("m".into()), ..Default::default() }), (15, 0), (G_CTL, nc)),
+            Kind::Pub0 => (P5::Publish(Box::new(s5::Publish5 { qos: 0, pid: None, topic: "t/a".into(), ..Default::default() })), (0, 0), (G_PUB, pub_base + np)),
         };
         if k.is_publish() {
             np += 1;
         } else {
             nc += 1;
         }
-        expected.push(exp);
+        if *k != Kind::Pub0 {
+            expected.push(exp);
+        }
+        has_resp.push(*k != Kind::Pub0);
         gate.push(g);
         frames.push(eut.encode(&pkt, &[]));
         if c.deferred >> i & 1 == 1 {
@@ -159,10 +166,12 @@ pub async fn run_case(c: Case) -> Result<CaseInfo, Failure> {
                 format!("responses on the wire {got:?} are not a prefix of the arrival order {expected:?}"),
             ));
         }
-        let mut ready = 0;
-        while ready < arrived && done_of(eut.app(), gate[ready]) {
-            ready += 1;
+        // responses due: those of the longest prefix of arrived requests whose handlers have completed
+        let mut lead = 0;
+        while lead < arrived && done_of(eut.app(), gate[lead]) {
+            lead += 1;
         }
+        let ready = has_resp[..lead].iter().filter(|h| **h).count();
         if got.len() > ready {
             return Err(fail(&c, "response-before-handler", format!("{} responses written but only {ready} leading requests completed", got.len())));
         }
@@ -289,10 +298,10 @@ pub fn check_case(c: &Case) -> Result<CaseInfo, Failure> {
 
 fn kinds_for(role: Role) -> Vec<Kind> {
     match role {
-        Role::V3Server => vec![Kind::Pub1, Kind::Pub2, Kind::PubRel, Kind::Sub, Kind::Unsub, Kind::Ping],
-        Role::V5Server => vec![Kind::Pub1, Kind::Pub2, Kind::Pub1Neg, Kind::Pub1ErrAck, Kind::PubRel, Kind::Sub, Kind::Unsub, Kind::Ping, Kind::Auth],
-        Role::V5Client => vec![Kind::Pub1, Kind::Pub1Neg],
-        _ => vec![Kind::Pub1],
+        Role::V3Server => vec![Kind::Pub1, Kind::Pub2, Kind::PubRel, Kind::Sub, Kind::Unsub, Kind::Ping, Kind::Pub0],
+        Role::V5Server => vec![Kind::Pub1, Kind::Pub2, Kind::Pub1Neg, Kind::Pub1ErrAck, Kind::PubRel, Kind::Sub, Kind::Unsub, Kind::Ping, Kind::Auth, Kind::Pub0],
+        Role::V5Client => vec![Kind::Pub1, Kind::Pub1Neg, Kind::Pub0],
+        _ => vec![Kind::Pub1, Kind::Pub0],
     }
 }
 
@@ -356,6 +365,9 @@ fn exhaustive(ctx: &Ctx) -> Stats {
         (Role::V5Client, vec![Kind::Pub1; n]),
         (Role::V5Server, vec![Kind::Pub1, Kind::Pub1ErrAck, Kind::Pub1Neg, Kind::Pub1ErrAck, Kind::Pub1][..n].to_vec()),
         (Role::V5Client, vec![Kind::Pub1, Kind::Pub1Neg, Kind::Pub1, Kind::Pub1Neg, Kind::Pub1][..n].to_vec()),
+        (Role::V5Server, vec![Kind::Pub1, Kind::Pub0, Kind::Ping, Kind::Pub0, Kind::Pub1][..n].to_vec()),
+        (Role::V3Server, vec![Kind::Pub1, Kind::Pub0, Kind::Pub1, Kind::Pub0, Kind::Sub][..n].to_vec()),
+        (Role::V3Client, vec![Kind::Pub1, Kind::Pub0, Kind::Pub1, Kind::Pub0, Kind::Pub1][..n].to_vec()),
     ];
     let mut work: Vec<Case> = Vec::new();
     for (role, kinds) in &patterns {
@@ -397,8 +409,8 @@ pub fn run(ctx: &Ctx, started: Instant) -> i32 {
     stats.merge(rnd);
     let report = Report {
         level: "exploration",
-        rule: "exhaustive: for 7 request-kind patterns of length 4 (quick) / 5 (thorough) every immediate/deferred mask x every completion permutation x {one write, one write per request}; \
-               random: 2..7 requests from {PUBLISH QoS1, PUBLISH QoS2, PUBREL of an earlier completed first leg, SUBSCRIBE, UNSUBSCRIBE, PINGREQ, v5 AUTH} with generated write groupings, \
+        rule: "exhaustive: for 10 request-kind patterns of length 4 (quick) / 5 (thorough) every immediate/deferred mask x every completion permutation x {one write, one write per request}; \
+               random: 2..7 requests from {PUBLISH QoS1, PUBLISH QoS2, PUBREL of an earlier completed first leg, SUBSCRIBE, UNSUBSCRIBE, PINGREQ, v5 AUTH, PUBLISH QoS 0 (no response)} with generated write groupings, \
                gate openings interleaved with arrivals, optional stalled-peer episode with an 8-byte write watermark. Oracle at every settle point: responses on the wire (type, packet id) are a \
                prefix of the arrival order, exactly as long as the longest prefix of completed requests; at the end the full order; protocol handlers never overlap. \
                Non-trivial = at least one request completed while an earlier one was still pending; distinct = the whole case"
